@@ -90,6 +90,20 @@ def run(res, tier):
         desc.update(family=fam, data=kind, n_states=ns, n_inputs=nu, gamma=gamma, n_iter=int(reg.n_iter_),
                     stop_reason=str(reg.stop_reason_))
         info = check(reg, ns, wfun, gamma, desc, X)
+        if info is None and cid % 3 == 0:
+            # every documented read-only helper (plots, frequency response, predictions) is called once: the reported bound must
+            # still be a bound for the matrix the estimator holds afterwards
+            from .. import readonly
+            readonly.exercise(reg0 if fam == 'zpk' else reg, X)
+            g2 = float(np.ravel(reg.gamma_)[0])
+            try:
+                info = check(reg, ns, wfun, g2, desc, X)
+            except Exception as e:  # noqa  (e.g. a pole on the unit circle: the norm is not even finite)
+                info = dict(what=f'the norm of the system the estimator holds cannot be evaluated: {type(e).__name__}: {e}')
+            if info is None and g2 != gamma:
+                info = dict(what='gamma_ changed when a read-only helper was called', before=gamma, after=g2)
+            if info:
+                info = dict(info, after='the read-only helpers (plot_*, frequency_response, predict, ...) were called')
         common.note_case('fit', desc.get('estimator'), X)
         if info:
             bad.append(dict(info, **desc, X=X.tolist()))
